@@ -21,7 +21,7 @@ static const profile_t PROFILES[] = {
       0, 0, (1u << P_T) | (1u << P_DOT), (1u << T_T), 0, 0, 0, 1 },
     { "C02D", 1, G_SUB | G_QUIT | G_SUBDUP,                                                    RL_BASE | R_PS | R_FREE,            0, "01000100" "07000100" "07010100" "04000000", 1, 0, 1,
       0, 0, (1u << P_T) | (1u << P_DOT), (1u << T_T), 0, 0, 0, 0 },
-    { "C07", 2, G_CTX | G_REG | G_LIFE | G_REFS | G_ILLEGAL | G_CTXCALL | G_QUIT | G_ARM,  RL_BASE | R_EV,                     1, "", 1, 0, 1 | 4 | 0x80,
+    { "C07", 2, G_CTX | G_REG | G_LIFE | G_REFS | G_ILLEGAL | G_CTXCALL | G_QUIT | G_ARM,  RL_BASE | R_EV,                     1, "", 1, 0, 1 | 2 | 4 | 0x80,
       (1u << A_DEREG) | (1u << A_CTXCALL), (1u << CB_START) | (1u << CB_STOP) | (1u << CB_EVT), 0, 0 },
     { "C07D", 2, G_CTX | G_REG | G_LIFE | G_CTXCALL | G_ARM | G_QUIT,                        RL_BASE | R_EV | R_NM,              1, "", 1, 0, 1 | 8,
       (1u << A_CTXCALL), (1u << CB_START) | (1u << CB_STOP) | (1u << CB_EVT), 0, 0 },
